@@ -240,6 +240,19 @@ theorem joins_reverse_meridian (e n1 n2 : ℝ) (h : n1 < n2) :
   rw [sub_self]
   exact ⟨bearing_north _ (by linarith), bearing_south _ (by linarith)⟩
 
+/-- the bearing does not depend on the unit of length: scaling both components by `k > 0` keeps the bearing and
+multiplies the distance by `k`. -/
+theorem rect2polar_scale (x y k : ℝ) (hk : 0 < k) :
+    (rect2polar (k * x) (k * y)).1 = k * (rect2polar x y).1 ∧
+    (rect2polar (k * x) (k * y)).2 = (rect2polar x y).2 := by
+  have hz : (⟨k * y, k * x⟩ : ℂ) = (k : ℂ) * (⟨y, x⟩ : ℂ) := by apply Complex.ext <;> simp
+  have ha : Complex.arg (⟨k * y, k * x⟩ : ℂ) = Complex.arg (⟨y, x⟩ : ℂ) := by
+    rw [hz]; exact Complex.arg_real_mul _ hk
+  rw [rect2polar_eq, rect2polar_eq]
+  simp only [atan2_def, ha, pown_def, sqrt_def, and_true]
+  have h2 : (k * x) ^ 2 + (k * y) ^ 2 = k ^ 2 * (x ^ 2 + y ^ 2) := by ring
+  rw [h2, Real.sqrt_mul (sq_nonneg k), Real.sqrt_sq hk.le]
+
 theorem rotation_scale (e n b d ρ k : ℝ) :
     radiations e n b d ρ k =
       (e + k * d * Real.sin ((b + ρ) * (Real.pi / 180)),
@@ -705,6 +718,7 @@ end GeodeVerif.C19
 #print axioms GeodeVerif.C19.back_bearing_east
 #print axioms GeodeVerif.C19.back_bearing_west
 #print axioms GeodeVerif.C19.joins_reverse
+#print axioms GeodeVerif.C19.rect2polar_scale
 #print axioms GeodeVerif.C19.joins_reverse_west
 #print axioms GeodeVerif.C19.joins_reverse_meridian
 #print axioms GeodeVerif.C19.rotation_scale
